@@ -404,6 +404,7 @@ def starts_colon(e):
     """the printed expression begins with `:` (atom literal): not expressible as the first thing of a bracket subscript entry"""
     t = e[0]
     if t == "lit": return e[1] == "atom"
+    if t == "tups": return True       # tuple-struct `:a(...)` begins with a colon too
     if t in ("trans", "term", "range", "rangei"): return starts_colon(e[1])
     return False
 
